@@ -24,7 +24,7 @@ RULE = (
     "{duplicate, unknown index, zero length, trailing bytes, UA edge, index 36}. Distinct by content."
 )
 ASSUMPTIONS = [
-    "SHORT/INT values whose length is not 2/4 are only required to be the same integer in every view",
+    "an empty SHORT/INT value is only required to be the same integer in every view",
     "for a duplicated index the value may come from any duplicate but from the same one in every view",
     "a block never contains both a SHORT and a non-SHORT record of index 36 (their names differ, constants collide)",
     "an index unknown to the frozen name table may be reported as BeaconSetting_<n> or under a new SETTING_* name",
@@ -66,6 +66,7 @@ def _free_value():
         st.just(b""),
         st.binary(min_size=2, max_size=2),
         st.binary(min_size=4, max_size=4),
+        st.binary(min_size=1, max_size=3),  # numeric records narrower than their natural width
         S.binary(0, 24),
         st.binary(min_size=200, max_size=700),
     )
@@ -165,11 +166,12 @@ def same(a, b):
 def raw_expect(typ, value):
     """(expected raw python value, exact?)"""
     # a SHORT / INT record whose length field is larger than its natural width still exposes the unsigned integer held
-    # in its LEADING 2 / 4 bytes (shorter-than-natural values are left unspecified)
+    # in its LEADING 2 / 4 bytes; a shorter value is the big-endian unsigned integer of exactly the bytes serialized
+    # (no byte is invented on either side: 07 is 7, 01 02 is 258); only the empty value is left unspecified
     if typ == 1:
-        return int.from_bytes(value[:2], "big"), len(value) >= 2
+        return int.from_bytes(value[:2], "big"), len(value) >= 1
     if typ == 2:
-        return int.from_bytes(value[:4], "big"), len(value) >= 4
+        return int.from_bytes(value[:4], "big"), len(value) >= 1
     return value, True
 
 
